@@ -176,15 +176,37 @@ let sem_c19_strong (e : Sexp.t) : Sexp.t =
     end
   | _ -> bad "sem_c19_strong: %s" (to_string e)
 
+(* ---------- renamed constants (rename_conflicting_symbols) read as what they stand for ---------- *)
+(* [unrename_formula clash f]: every symbolic constant printed `s__s` with s in [clash] (the constants
+   that equal a 0-ary predicate of the problem) is read as the constant s it stands for *)
+let suffix_s = Semlib.cl "__s"
+let unrename_gterm (clash : char list list) (t : gterm) : gterm =
+  match t with
+  | GSym (SSym x) ->
+    (match List.find_opt (fun s -> x = s @ suffix_s) clash with Some s -> GSym (SSym s) | None -> t)
+  | _ -> t
+let rec unrename_formula (clash : char list list) (f : formula) : formula =
+  match f with
+  | FAtomic (AAtom (p, ts)) -> FAtomic (AAtom (p, List.map (unrename_gterm clash) ts))
+  | FAtomic (ACmp (t, gs)) ->
+    FAtomic (ACmp (unrename_gterm clash t, List.map (fun g -> { g with gterm_of = unrename_gterm clash g.gterm_of }) gs))
+  | FAtomic _ -> f
+  | FNot g -> FNot (unrename_formula clash g)
+  | FBin (c, l, r) -> FBin (c, unrename_formula clash l, unrename_formula clash r)
+  | FQ (q, vs, g) -> FQ (q, vs, unrename_formula clash g)
+let unrename_problem (clash : char list list) (p : problem) : problem =
+  { p with pb_formulas = List.map (fun a -> { a with pf_formula = unrename_formula clash a.pf_formula }) p.pb_formulas }
+
 (* ---------- sem_c03 ---------- *)
 (* the class excluded from C03 (finding F8b): a symbol of the programs equals the h- or t-copy of a
-   0-ary predicate of the programs *)
-let symbol_pred_clash (left : M.Asp.program) (right : M.Asp.program) : bool =
+   0-ary predicate of the programs; [strong_clash_symbols] are those symbols (printed s__s) *)
+let strong_clash_symbols (left : M.Asp.program) (right : M.Asp.program) : char list list =
   let ps = M.Strong.strong_predicates left right in
-  let syms = M.Asp.program_fconsts left @ M.Asp.program_fconsts right in
-  List.exists (fun (p : pred) ->
-      Conv.int_of_nat p.parity = 0
-      && (List.mem ('h' :: p.psym) syms || List.mem ('t' :: p.psym) syms)) ps
+  let syms = uniq (M.Asp.program_fconsts left @ M.Asp.program_fconsts right) in
+  List.filter (fun s ->
+      List.exists (fun (p : pred) -> Conv.int_of_nat p.parity = 0 && (s = 'h' :: p.psym || s = 't' :: p.psym)) ps) syms
+let symbol_pred_clash (left : M.Asp.program) (right : M.Asp.program) : bool =
+  strong_clash_symbols left right <> []
 
 let sem_c03_gen ~(all : bool) (e : Sexp.t) : Sexp.t =
   match e with
@@ -192,10 +214,20 @@ let sem_c03_gen ~(all : bool) (e : Sexp.t) : Sexp.t =
   | L [ L [ L [ _; dir; _; _; _ ]; left; right; _ ]; L (A "problems" :: pbs) ] ->
     let left = program left and right = program right in
     let dir = direction dir in
+    (* The regular op reads a renamed constant `s__s` as the constant s it stands for (so every other
+       violation inside the class F8b is still reported) and leaves the symbol_order chain - which is
+       false for those constants, C12_chain_refuted_after_rename - out of account; it skips only the
+       ambiguous case where a constant `s__s` exists besides s.  [sem_c03_all] takes the printed names
+       at face value, as the prover does (the chain makes them distinct constants in byte order):
+       that is the recorded finding. *)
+    let clash = strong_clash_symbols left right in
+    let all_syms = M.Asp.program_fconsts left @ M.Asp.program_fconsts right in
+    let ambiguous = List.exists (fun s -> List.mem (s @ suffix_s) all_syms) clash in
     if not (program_terms_simple left && program_terms_simple right) then ok 0
-    else if (not all) && symbol_pred_clash left right then ok 0
+    else if (not all) && ambiguous then ok 0
     else begin
       let pbs = List.map problem pbs in
+      let pbs = if all then pbs else List.map (unrename_problem clash) pbs in
       let all_formulas = List.concat_map problem_formulas pbs in
       (* the window must contain the constants of the programs as well (reference side) *)
       let consts = List.map (fun s -> FAtomic (AAtom (Semlib.cl "c", [ GSym (SSym s) ]))) (M.Asp.program_fconsts left @ M.Asp.program_fconsts right) in
